@@ -23,6 +23,7 @@
 import ControlModel.Gen.C07Facts
 import ControlModel.Proofs.RunNumber
 import ControlModel.Proofs.RunAttempts
+import ControlModel.Proofs.RunWrites
 
 open RunNumber
 
@@ -48,7 +49,11 @@ theorem C07_read_consistent_is_code : Gen.C07.readRequiresConsistent = true := b
 theorem C07_wrap_is_code :
     Gen.C07.wrapEvaluated = true ∧ codeProto.guard = !Gen.C07.wrapsAtMax := by decide
 
-/-- `local.Service.NewRunNumber` is `GetNextUInt32` for a consul:// backend, and
+/-- `local.Service.NewRunNumber` is `GetNextUInt32` for a consul:// backend — the Consul branch
+    consists of the single statement `return cSrc.GetNextUInt32(<key expression>)`: the call is
+    made DIRECTLY, by every caller for itself (no wrapper, no closure, no other statement, the key
+    expression calls nothing but `filepath.Join`/`getConsulRuntimePrefix`), which is why the model
+    can be blind to the Service object a caller goes through — and
     `before_event START_ACTIVITY` cancels the transition (dropping the value) when it errs —
     which is what `adopted` models. -/
 theorem C07_consumer_is_code :
@@ -216,6 +221,82 @@ theorem C07_crash_safe (p : Proto) (s : Sys) (c : Nat) :
 example :
     let s := run codeProto [.read 0, .read 1, .crash 0, .cas 0, .cas 1, .read 2, .cas 2] (init ⟨none, 0⟩)
     returned s 0 = none ∧ returned s 1 = some 1 ∧ returned s 2 = some 2 := by decide
+
+/-! ## every number is paid for by a write of the call that returns it
+
+  Callers that overlap inside ONE `local.Service` (one apricot instance serves every environment
+  of a core) are, in the model, just callers: each runs `read ; cas` itself. What that implies for
+  the observation — and what a Service that answers one caller with another caller's result
+  (request coalescing, a cached number, …) violates — is stated here for ALL schedules and ANY
+  protocol setting, without any hypothesis on foreign writers. -/
+
+/-- A number is handed only to a call whose OWN write request Consul processed, and that call
+    owns the log entry carrying exactly this number. -/
+theorem C07_number_needs_own_write (p : Proto) (sched : List Step) (st : Store) (c n : Nat)
+    (hc : returned (run p sched (init st)) c = some n) :
+    ∃ t t' i, (run p sched (init st)).callers c = .done n .ok t t' (some i) ∧
+      ({ caller := c, num := n, started := t, ended := t' } : Ret) ∈ (run p sched (init st)).log := by
+  have own := run_own p sched _ (own_init st)
+  generalize run p sched (init st) = s at *
+  unfold returned at hc
+  cases hcc : s.callers c with
+  | done v e t t' q =>
+    rw [hcc] at hc
+    cases e <;> simp [adopted] at hc
+    subst hc
+    obtain ⟨hq, hl⟩ := own c v t t' q hcc
+    cases q with
+    | none => cases hq
+    | some i => exact ⟨t, t', i, rfl, hl⟩
+  | idle => rw [hcc] at hc; simp [adopted] at hc
+  | holding _ _ _ => rw [hcc] at hc; simp [adopted] at hc
+  | dead _ => rw [hcc] at hc; simp [adopted] at hc
+
+/-- The counter advances ONCE PER NUMBER: with the CAS answer checked, after any schedule the
+    store's index has grown by exactly the count of numbers handed out plus the count of foreign
+    writes/deletes. N numbers ⇒ N applied writes; N callers answered while the counter advanced
+    once is not a behaviour of the protocol. -/
+theorem C07_counter_advances_once_per_number (p : Proto) (hchk : p.checkOk = true)
+    (sched : List Step) (st : Store) :
+    (run p sched (init st)).store.raft =
+      st.raft + (run p sched (init st)).log.length + foreignOps sched := by
+  have := run_raft p hchk sched (init st)
+  simpa [init] using this
+
+/-- The model's observation satisfies the own-write clause of `SpecObs` — every schedule, every
+    number of callers. -/
+theorem C07_own_write_spec (p : Proto) (sched : List Step) (st : Store) (n : Nat) :
+    ownWriteB (obsOf n (run p sched (init st))) = true :=
+  ownWrite_obs n _ (run_own p sched _ (own_init st))
+
+/-- …and `SpecObs` REJECTS every observation in which some call was answered with a number
+    although Consul applied no write of that call — whatever the other calls did, whether or not
+    the numbers happen to collide, with or without `ForeignMonotone`. -/
+theorem C07_answer_without_own_write_rejected (fm : Bool) (L : Nat) (cs : List CallObs) (c : CallObs)
+    (hc : c ∈ cs) (hok : c.ok.isSome = true) (hw : c.wrote = false) : SpecObs fm L cs = false := by
+  have : ownWriteB cs = false := by
+    cases hb : ownWriteB cs with
+    | false => rfl
+    | true =>
+      simp only [ownWriteB, List.all_eq_true] at hb
+      have h := hb c hc
+      cases ho : c.ok with
+      | none => simp [ho] at hok
+      | some n => simp [ho, hw] at h
+  simp [SpecObs, this]
+
+/-- What a coalescing Service does (two calls overlap inside it, the second is handed the
+    answer of the first and never reaches Consul): the observation is rejected by both clauses —
+    no own write, and the numbers are not distinct — while the protocol on the same schedule
+    (`read 0, read 1, cas 0, cas 1`) answers the second call with the CAS error. -/
+theorem C07_shared_answer_is_rejected :
+    let shared : List CallObs :=
+      [{ caller := 0, ok := some 42, started := 0, ended := 2, refused := false, wrote := true },
+       { caller := 1, ok := some 42, started := 1, ended := 3, refused := false, wrote := false }]
+    let st : Store := { entry := some { raw := "41".toList, idx := 5 }, raft := 7 }
+    let s := run codeProto [.read 0, .read 1, .cas 0, .cas 1] (init st)
+    ownWriteB shared = false ∧ uniqueB (retsOf shared) = false ∧ SpecObs true 41 shared = false ∧
+    returned s 0 = some 42 ∧ returned s 1 = none ∧ SpecObs true 41 (obsOf 2 s) = true := by decide
 
 /-! ## the forced hypothesis: uint32 wrap (finding `uint32_wrap`) -/
 
